@@ -276,6 +276,61 @@ fn main() {
       print!("{}", out);
       std::process::exit(0);
     }
+    Some("httpvalues") => {
+      // BOUNDED stand-in (not a proof) for C18: the body of POST /evaluate/{model}/{decision} on the real service is, character for
+      // character, {"data": <the JSON rendering of the value>} for echo decisions over long numbers, strings that need escaping,
+      // temporal values and lists / contexts of them (whatever the handler does between the evaluator and the socket must not
+      // change a digit)
+      use dmntk_common::Jsonify;
+      let port = { let l = std::net::TcpListener::bind(("127.0.0.1", 0)).expect("bind"); l.local_addr().unwrap().port() };
+      let p2 = port.to_string();
+      std::thread::spawn(move || { let _ = actix_web::rt::System::new("verif").block_on(dmntk_server::start_server(Some("127.0.0.1".to_string()), Some(p2), None)); });
+      let mut up = false;
+      for _ in 0..100 { if std::net::TcpStream::connect(("127.0.0.1", port)).is_ok() { up = true; break; } std::thread::sleep(std::time::Duration::from_millis(100)); }
+      if !up { println!("SERVER-DID-NOT-START"); std::process::exit(0); }
+      let mut exprs: Vec<String> = vec!["1/3", "2/3", "12345678901234567890123.25", "-0.000000000000000000000000000000001234", "10**30", "10**-30", "9999999999999999999999999999999999", "18446744073709551616",
+        "9007199254740993", "0.1", "1.10", "100", "-0", "123456789.123456789123456789", "[1/3, 2/3]", "{a: 1/3, b: [12345678901234567890123.25]}", "1/7 * 1e20"].iter().map(|s| s.to_string()).collect();
+      exprs.extend(value_grid(false).into_iter().take(120));
+      if let Some(n) = args.get(2).and_then(|a| a.parse::<usize>().ok()) { exprs.truncate(n); }
+      let scope = Scope::default();
+      // only expressions that build (one that does not would keep the whole echo model from being deployed)
+      exprs.retain(|e| dmntk_feel_parser::parse_expression(&scope, e, false).and_then(|n| dmntk_feel_evaluator::prepare(&n)).is_ok());
+      let esc = |t: &str| t.replace('&', "&amp;").replace('<', "&lt;").replace('>', "&gt;").replace('"', "&quot;");
+      let mut xml = String::from("<?xml version=\"1.0\" encoding=\"UTF-8\"?>\n<definitions namespace=\"https://verif/values\" name=\"values\" id=\"_v\" xmlns=\"https://www.omg.org/spec/DMN/20191111/MODEL/\">\n");
+      for (k, e) in exprs.iter().enumerate() {
+        xml.push_str(&format!("  <decision name=\"D{}\" id=\"_d{}\"><variable name=\"D{}\"/><literalExpression><text>{}</text></literalExpression></decision>\n", k, k, k, esc(e)));
+      }
+      xml.push_str("</definitions>\n");
+      let raw = |method: &str, path: &str, body: &str| -> String {
+        use std::io::{Read, Write};
+        let mut stream = match std::net::TcpStream::connect(("127.0.0.1", port)) { Ok(s) => s, Err(_) => return "noconnection".to_string() };
+        let _ = stream.set_read_timeout(Some(std::time::Duration::from_secs(10)));
+        let req = format!("{} {} HTTP/1.1\r\nHost: verif\r\nConnection: close\r\nContent-Type: application/json\r\nContent-Length: {}\r\n\r\n", method, path, body.len());
+        if stream.write_all(req.as_bytes()).is_err() || stream.write_all(body.as_bytes()).is_err() { return "noanswer".to_string(); }
+        let mut bytes: Vec<u8> = vec![];
+        let _ = stream.read_to_end(&mut bytes);
+        let text = String::from_utf8_lossy(&bytes).to_string();
+        match text.split_once("\r\n\r\n") { Some((_, p)) => p.to_string(), None => String::new() }
+      };
+      let _ = raw("POST", "/definitions/clear", "");
+      let added = raw("POST", "/definitions/add", &format!("{{\"content\":\"{}\"}}", base64(xml.as_bytes())));
+      let deployed = raw("POST", "/definitions/deploy", "");
+      let mut cases = 0usize;
+      let mut nfail = 0usize;
+      let mut failures: Vec<String> = vec![];
+      if !added.contains("\"data\"") || !deployed.contains("\"data\"") { nfail += 1; failures.push(format!("the echo model was not added / deployed: {} / {}", added.chars().take(120).collect::<String>(), deployed.chars().take(120).collect::<String>())); }
+      for (k, e) in exprs.iter().enumerate() {
+        let direct = match dmntk_feel_parser::parse_expression(&scope, e, false).and_then(|n| dmntk_feel_evaluator::prepare(&n)) { Ok(ev) => ev(&scope), Err(_) => continue };
+        if let Value::Null(Some(_)) = direct { if e != "null" { continue; } }
+        cases += 1;
+        let expected = format!("{{\"data\":{}}}", direct.jsonify());
+        let got = raw("POST", &format!("/evaluate/values/D{}", k), "{}");
+        if got != expected { nfail += 1; if failures.len() < 5 { failures.push(format!("{} answered {} (expected {})", e, got.chars().take(120).collect::<String>(), expected.chars().take(120).collect::<String>())); } }
+      }
+      println!("httpvalues cases={} failures={}", cases, nfail);
+      for f in failures { println!("FAIL {}", f); }
+      std::process::exit(0);
+    }
     Some("workspacebatch") => {
       // workspacebatch <file>: each line is a sequence of workspace operations separated by blanks, run on a fresh Workspace;
       // prints one line per sequence: the answers joined by `|` (or PANIC)
@@ -382,6 +437,10 @@ fn main() {
         let r = std::panic::catch_unwind(move || {
           let scope = Scope::default();
           for n in ["a", "b", "c", "d", "x", "y"] { scope.set_entry(&n.into(), Value::Number(FeelNumber::from_i128(1))); }
+          // a line that starts with `UT:` is parsed as unary tests (the start symbol of decision table input entries)
+          if let Some(ut) = e.strip_prefix("UT:") {
+            return match dmntk_feel_parser::parse_unary_tests(&scope, ut, false) { Ok(node) => format!("{:?}", node), Err(_) => "PARSE-ERROR".to_string() };
+          }
           match dmntk_feel_parser::parse_expression(&scope, &e, false) { Ok(node) => format!("{:?}", node), Err(_) => "PARSE-ERROR".to_string() }
         }).unwrap_or("PANIC".to_string());
         out.push_str(&r); out.push('\n');
